@@ -305,7 +305,9 @@ fn main() {
             }
         }
     }
-    let (l, a) = net.validate(&vxr, &vyr, 1e-3);
+    // (a tolerance at which a good part of the outputs are hits: the accuracy is then a
+    // non-trivial sum and a lost or re-ordered per-sample contribution shows in it)
+    let (l, a) = net.validate(&vxr, &vyr, 0.5);
     eat(l);
     eat(a);
     // order-sensitive: the position is mixed into the digest
